@@ -88,6 +88,36 @@ class ShimQueue:
         return item
 
 
+class JobLock:
+    """TransferState._job_lock: the shim lock plus the log record of the locked
+    decrement.  The record is written at the release, i.e. at the position of
+    the critical section in the linearised log (the scheduler yields after a
+    release, so a record written after notify_job_complete returned could be
+    overtaken); the value the caller got is filled in when the call returns.
+    The post-release yield is done here, after the record."""
+
+    def __init__(self, R, inner, t, state):
+        self.R, self.inner, self.t, self.state = R, inner, t, state
+        inner.post_yield = False
+
+    def acquire(self, *a, **k):
+        return self.inner.acquire(*a, **k)
+
+    def release(self):
+        v = self.state._jobs_to_complete
+        self.inner.release()
+        rec = self.R.log('mon', m='notify_job_complete', args=(self.t,), r=v, inlock=v)
+        self.R.pending_decr[self.R.sched.me()] = rec
+        self.R.sched.yield_point('lock.release')
+
+    def __enter__(self):
+        self.acquire()
+        return self
+
+    def __exit__(self, *a):
+        self.release()
+
+
 class InjectedInterrupt(KeyboardInterrupt):
     pass
 
@@ -116,11 +146,20 @@ class LoggingMonitor:
             if name == 'poll_for_result' and R.interrupt_in_result():
                 R.log('mon', m='poll_interrupted', args=args, r=None)
                 raise InjectedInterrupt()
+            me = R.sched.me()
+            R.pending_decr.pop(me, None)
             try:
                 r = real(*args)
             except Exception as e:      # poll_for_result raising the stored exception
                 R.log('mon', m=name, args=args, r=None, raised=type(e).__name__, **extra)
                 raise
+            if name == 'notify_job_complete' and me in R.pending_decr:
+                # already logged inside the critical section: record what the caller got
+                R.pending_decr.pop(me)['r'] = r
+                return r
+            if name == 'notify_new_transfer':
+                st = self._real._transfer_states[r]
+                st._job_lock = JobLock(R, st._job_lock, r, st)
             R.log('mon', m=name, args=args, r=r, **extra)
             return r
         return call
@@ -165,6 +204,7 @@ class Run:
         self.done_seen = {}         # t -> step at which done was first sampled
         self.interrupted = False
         self.interrupt_raised = False
+        self.pending_decr = {}
 
     # -- logging ----------------------------------------------------------------
     def log(self, kind, **kw):
@@ -188,7 +228,7 @@ class Run:
         case = self.case
         R = self
         self.tmpdir = tempfile.mkdtemp(prefix='verif-c19-')
-        self.shim = core.Shim(self.sched)
+        self.shim = core.Shim(self.sched, post_yield=True)   # locks yield right after release()
         self.saved = (m.threading, m.__dict__.get('open', None))
         m.threading = self.shim
 
@@ -320,6 +360,9 @@ class Run:
 
         osutil = LogOSUtils()
         self.real_monitor = m.TransferMonitor()
+        # the id allocation and its log record stay in one atomic segment (every
+        # monitor call is preceded by a yield point of the facade anyway)
+        self.real_monitor._init_lock.post_yield = False
         self.monitor = LoggingMonitor(self, self.real_monitor)
         self.reqq = ShimQueue(self, 'reqq')
         self.jobq = ShimQueue(self, 'jobq')
@@ -803,6 +846,8 @@ class Batch:
         self.ctx = ctx
         self.items = []         # (case, choices, line, run-summary)
         self.failed = []
+        self.corr = 0           # correspondence mismatches seen / reported
+        self.searched = False
 
     def run(self, case, spec, tag):
         ctx = self.ctx
@@ -850,7 +895,14 @@ class Batch:
             else:
                 bad = compare_final(run, ans)
             if bad and not run.problems:
-                # the oracle holds on this run: the correspondence no longer checks
+                # the oracle holds on this run: is the property violated nearby?
+                self.corr += 1
+                ctx.cov['correspondence_mismatches'] = self.corr
+                if not self.searched:
+                    self.searched = True
+                    self.focus_search(case)
+                if self.corr > 2:
+                    continue        # keep room for concrete failing schedules
                 ctx.report(f'corr:pool:{case_sig(case)}',
                            f'implementation trace is not a model trace although C19 holds on it: {bad}',
                            {'kind': 'correspondence', 'theorem_or_correspondence': 'trace inclusion processpool <= Pool.step',
@@ -860,6 +912,30 @@ class Batch:
                 ctx.sample({'component': 'pool-trace', 'scenario': case, 'model_trace': line, 'model_answer': ans})
         ctx.cov['traces_validated_against_impl'] = ctx.cov.get('traces_validated_against_impl', 0) + nv
         self.items = []
+
+
+def _focus_search(self, case):
+    """A trace left the model although the oracle held on it: run the oracle on
+    neighbouring scenarios with more workers / jobs under random schedules."""
+    ctx = self.ctx
+    rng = ctx.rng('focus')
+    fault = case.get('fault')
+    for n in range(240):
+        if len(ctx.violations) >= 4:
+            return
+        workers = 2 + n % 2
+        jobs = [[2], [3], [4], [2, 2]][n % 4]
+        f = fault if (fault and n % 2 and fault.get('download', 0) < len(jobs)
+                      and fault.get('job', 0) < jobs[fault.get('download', 0)]) else None
+        c = mk_case(workers, jobs, f, cancel=case.get('cancel') if n % 5 == 4 else None,
+                    interrupt=case.get('interrupt') if n % 5 == 3 else None)
+        r = execute(c, {'type': 'random' if n % 3 else 'pct', 'seed': rng.randrange(1 << 30), 'stick': 0.3})
+        ctx.count('pool-focus', 1, nontrivial_key=(case_sig(c), tuple(r.choices)))
+        for kind, text in r.problems:
+            self.report_problem(c, r, kind, text)
+
+
+Batch.focus_search = _focus_search
 
 
 def generate(ctx, batch):
@@ -913,7 +989,7 @@ def generate(ctx, batch):
                 batch.run(mk_case(workers, jobs, fault, interrupt=how), spec, 'interrupt')
             batch.validate()
     # 3. more random / PCT schedules with random faults and users
-    for n in range(4000 if ctx.thorough() else 500):
+    for n in range(4000 if ctx.thorough() else 300):
         if over():
             return
         workers, jobs = rng.choice(shapes)
